@@ -358,10 +358,16 @@ class ProcTable:
                 return None
             if len(rest) == 2:
                 return D(["stat", "status", "comm"])
+            def thread_gone():
+                # the thread ended between open() and read(): ESRCH, like a process that did
+                e = gone()
+                if e is None and t not in {th.tid for th in p.thread_list()}:
+                    e = oserr(errno.ESRCH)
+                return e
             if rest[2] == "stat":
-                return F(lambda: render_stat(p, t), gone)
+                return F(lambda: render_stat(p, t), thread_gone)
             if rest[2] == "status":
-                return F(lambda: render_status(p, t), gone)
+                return F(lambda: render_status(p, t), thread_gone)
             return None
         return None
 
